@@ -203,6 +203,11 @@ func normalizeTerm(t *Term) *Term {
 		if t.Args[0].Op == OpAddr {
 			return &Term{Op: OpField, Name: t.Name, Obj: t.Obj, Args: []*Term{t.Args[0].Args[0]}}
 		}
+		// a field selected through the address of a local / global cell (after substituting a pointer
+		// parameter by the cell's address): canonical form goes through the cell's value
+		if t.Args[0].Op == OpLocal || t.Args[0].Op == OpGlobal {
+			return &Term{Op: OpField, Name: t.Name, Obj: t.Obj, Args: []*Term{{Op: OpDeref, Args: []*Term{t.Args[0]}}}}
+		}
 	}
 	return t
 }
